@@ -55,7 +55,7 @@ func runC18(c *Ctx, idx int, o *Obs) {
 		return
 	}
 	t := &cmdTable[k]
-	in := makeInputs(r, c.Tmp, 14+fam*4)
+	in := makeInputs(r, c.Tmp, 14+fam*3)
 	in.write()
 	R := 4
 	if c.Thorough() {
@@ -92,7 +92,9 @@ func runC18(c *Ctx, idx int, o *Obs) {
 	}
 	if t.Threaded {
 		for i := 0; i < 2; i++ {
-			th := runTmpl(c, t, in, append([]string{"-t", "4"}, seed...), "r")
+			nth := []int{4, 3, 8, 5, 2, 6, 16}[(fam+i*3+k)%7]
+			th := runTmpl(c, t, in, append([]string{"-t", fmt.Sprint(nth)}, seed...), "r")
+			o.AddSet("thread_counts", fmt.Sprint(nth))
 			o.Ev("process_runs_threaded", 1)
 			if th.res.TimedOut {
 				o.Inconclusive = what + " -t 4: wall-clock watchdog"
@@ -110,7 +112,7 @@ func runC18(c *Ctx, idx int, o *Obs) {
 					d = "record sets differ: " + firstDiff(strings.Join(a, "\n"), strings.Join(b, "\n"))
 				}
 			}
-			if !o.Check(d == "", "output_differs_with_threads", fmt.Sprintf("%s: -t 1 and -t 4 differ: %s", what, d), what, "cmd", t.Name) {
+			if !o.Check(d == "", "output_differs_with_threads", fmt.Sprintf("%s: -t 1 and -t %d differ: %s", what, nth, d), what, "cmd", t.Name) {
 				return
 			}
 		}
